@@ -6,6 +6,7 @@ import sys
 from pjplan import Task, WBS
 
 ABSENT_ID = 99
+_CONTAINERS = (list, tuple, dict, set, frozenset)
 
 
 class Universe:
@@ -50,11 +51,17 @@ class Universe:
         self.ref = {}
         for i, o in enumerate(self.objs):
             self.ref[id(o)] = i
+        self._plains = []       # plain values met inside nested containers (token -> object)
+        self._plain_ix = {}
         self.initial = [dict(o.__dict__) for o in self.objs]
         for d in self.initial:
             for k, v in list(d.items()):
-                if type(v) is list:
+                if type(v) is list and not any(type(x) in _CONTAINERS for x in v):
                     d[k] = tuple(v)
+                elif type(v) in _CONTAINERS:
+                    # nested / non-list containers (a refactored library may keep its relations in tuples of lists, dicts,
+                    # sets): kept in encoded form so that restore builds fresh containers every time
+                    d[k] = ('DEEP', self._enc_deep(v))
         self.attrs0 = self.observe_attrs()
         self.init_enc = self.encode()
 
@@ -64,6 +71,49 @@ class Universe:
         if r is None:
             return ('Z', type(v).__name__, getattr(v, 'id', None))
         return r
+
+    def _enc_deep(self, v):
+        """Hashable encoding of an arbitrarily nested container of universe objects and plain values."""
+        tv = type(v)
+        if tv is Task or tv is WBS:
+            r = self.ref.get(id(v))
+            return ('R', r) if r is not None else ('Z', tv.__name__, getattr(v, 'id', None))
+        if tv is list:
+            return ('L', tuple([self._enc_deep(x) for x in v]))
+        if tv is tuple:
+            return ('T', tuple([self._enc_deep(x) for x in v]))
+        if tv is dict:
+            return ('D', tuple([(self._enc_deep(k), self._enc_deep(x)) for k, x in v.items()]))
+        if tv is set or tv is frozenset:
+            return ('S' if tv is set else 'F', tuple(sorted((self._enc_deep(x) for x in v), key=repr)))
+        try:
+            key = (tv, v)
+            hash(key)
+        except TypeError:
+            key = ('id', id(v))
+        ix = self._plain_ix.get(key)
+        if ix is None:
+            ix = self._plain_ix[key] = len(self._plains)
+            self._plains.append(v)
+        return ('P', ix)
+
+    def _dec_deep(self, e):
+        k = e[0]
+        if k == 'R':
+            return self.objs[e[1]]
+        if k == 'P':
+            return self._plains[e[1]]
+        if k == 'L':
+            return [self._dec_deep(x) for x in e[1]]
+        if k == 'T':
+            return tuple(self._dec_deep(x) for x in e[1])
+        if k == 'D':
+            return {self._dec_deep(a): self._dec_deep(b) for a, b in e[1]}
+        if k == 'S':
+            return {self._dec_deep(x) for x in e[1]}
+        if k == 'F':
+            return frozenset(self._dec_deep(x) for x in e[1])
+        raise RuntimeError('HARNESS cannot restore a value that is not part of the universe: %r' % (e,))
 
     def encode(self):
         """Concrete state: every relation-typed __dict__ entry, by object index.  Sets
@@ -80,7 +130,15 @@ class Universe:
             for k, v in d.items():
                 tv = type(v)
                 if tv is list:
-                    items.append((k, tuple([ref[id(x)] if id(x) in ref else self._enc_val(x) for x in v])))
+                    try:
+                        items.append((k, tuple([ref[id(x)] for x in v])))
+                    except KeyError:
+                        if any(type(x) in _CONTAINERS for x in v):
+                            items.append((k, ('DEEP', self._enc_deep(v))))
+                        else:
+                            items.append((k, tuple([ref[id(x)] if id(x) in ref else self._enc_val(x) for x in v])))
+                elif tv in _CONTAINERS:
+                    items.append((k, ('DEEP', self._enc_deep(v))))
                 elif tv is Task or tv is WBS:
                     items.append((k, ref[id(v)] if id(v) in ref else self._enc_val(v)))
                 else:
@@ -101,10 +159,16 @@ class Universe:
             d = o.__dict__
             d.clear()
             for k, v in init.items():
-                d[k] = list(v) if type(v) is tuple else v
+                if type(v) is tuple:
+                    d[k] = self._dec_deep(v[1]) if (len(v) == 2 and v[0] == 'DEEP') else list(v)
+                else:
+                    d[k] = v
             for k, v in items:
                 if type(v) is tuple:
-                    d[k] = [objs[x] for x in v]
+                    if len(v) == 2 and v[0] == 'DEEP':
+                        d[k] = self._dec_deep(v[1])
+                    else:
+                        d[k] = [objs[x] for x in v]
                 elif v is None:
                     d[k] = None
                 else:
@@ -117,6 +181,10 @@ class Universe:
                 if type(v) is tuple:
                     if v and v[0] == 'Z':
                         return True
+                    if len(v) == 2 and v[0] == 'DEEP':
+                        if "('Z'," in repr(v):
+                            return True
+                        continue
                     for x in v:
                         if type(x) is tuple:
                             return True
